@@ -17,7 +17,6 @@
 package jsonproto
 
 import (
-	"bytes"
 	"encoding/binary"
 	"io"
 	"strconv"
@@ -85,7 +84,9 @@ func (j *jsonproto) Pack(m erpc.Message) error {
 	bb.Write(msg2)
 	bb.WriteString(strconv.FormatInt(int64(m.Mtype()), 10))
 	bb.Write(msg3)
-	bb.WriteString(strconv.Quote(m.ServiceMethod()))
+	bb.WriteByte('"')
+	bb.B = appendEscaped(bb.B, goutil.StringToBytes(m.ServiceMethod()))
+	bb.WriteByte('"')
 	bb.Write(msg4)
 	bb.WriteString(strconv.Quote(m.Status(true).QueryString()))
 	bb.Write(msg5)
@@ -93,7 +94,7 @@ func (j *jsonproto) Pack(m erpc.Message) error {
 	bb.Write(msg6)
 	bb.WriteString(strconv.FormatInt(int64(m.BodyCodec()), 10))
 	bb.Write(msg7)
-	bb.Write(bytes.Replace(bodyBytes, []byte{'"'}, []byte{'\\', '"'}, -1))
+	bb.B = appendEscaped(bb.B, bodyBytes)
 	bb.Write(msg8)
 
 	// do transfer pipe
@@ -114,6 +115,25 @@ func (j *jsonproto) Pack(m erpc.Message) error {
 	copy(all[4+1+xferPipeLen:], b)
 	_, err = j.rw.Write(all)
 	return err
+}
+
+// appendEscaped appends src as the content of a JSON string literal: the quote that
+// would end the literal, the backslash that would start an escape sequence and the
+// control characters (which end the string for the decoder) are escaped; every
+// other byte is kept as it is.
+func appendEscaped(dst, src []byte) []byte {
+	const hex = "0123456789abcdef"
+	for _, c := range src {
+		switch {
+		case c == '"' || c == '\\':
+			dst = append(dst, '\\', c)
+		case c < ' ':
+			dst = append(dst, '\\', 'u', '0', '0', hex[c>>4], hex[c&0xf])
+		default:
+			dst = append(dst, c)
+		}
+	}
+	return dst
 }
 
 // Unpack reads bytes from the connection to the Message.
